@@ -359,6 +359,9 @@ class Emitter:
             if not init:
                 out.append('extern %s;' % lw.ctype(t, cname))
                 continue
+            if cname in lw.cfg.get('global_values', {}):
+                out.append('const %s = %s;' % (lw.ctype(t, cname), lw.cfg['global_values'][cname]))
+                continue
             ctx = Stmts(lw, Func({'id': 'g', 'kind': 'FunctionDecl', 'name': cname, 'type': {'qualType': 'void ()'}}, cname, None, lw))
             ctx.pre, ctx.post = [], []
             s = self.static_init(ctx, init[0])
